@@ -1,6 +1,72 @@
 /-
-  C11 property theorems.
+  C11 — State resolution is order-independent and yields well-formed state.
+  (first instalment: the resolved state is a map — at most one event per (type, state_key);
+   the order-independence theorems are in progress, see DESIGN.md §5 C11)
 -/
 import VModel.StateRes
 namespace V.C11
+open V V.StateRes
+
+def KeysNodup (s : State) : Prop := (s.map (·.1)).Nodup
+
+theorem set_keys (s : State) (t k : Bytes) (e : Event) :
+    (s.set t k e).map (·.1) = if (s.find? (fun x => x.1 == (t, k))).isSome then s.map (·.1) else s.map (·.1) ++ [(t, k)] := by
+  unfold State.set
+  split
+  · rename_i h
+    simp only [h, if_true, List.map_map]
+    apply List.map_congr_left
+    intro x hx
+    simp only [Function.comp]
+    split
+    · rename_i hxk; simp at hxk; exact hxk.symm
+    · rfl
+  · rename_i h
+    simp [h]
+
+theorem set_keysNodup (s : State) (t k : Bytes) (e : Event) (h : KeysNodup s) : KeysNodup (s.set t k e) := by
+  unfold KeysNodup at *
+  rw [set_keys]
+  split
+  · exact h
+  · rename_i hf
+    rw [List.nodup_append]
+    refine ⟨h, by simp, ?_⟩
+    intro a ha b hb
+    simp only [List.mem_singleton] at hb
+    subst hb
+    intro hab
+    subst hab
+    apply hf
+    obtain ⟨x, hx, hxk⟩ := List.mem_map.mp ha
+    rw [List.find?_isSome]
+    exact ⟨x, hx, by simp [hxk]⟩
+
+/-- **`applyEvents` keeps at most one event per (type, state_key).** -/
+theorem applyEvents_keysNodup (s : State) (evs : List Event) (h : KeysNodup s) : KeysNodup (applyEvents s evs) := by
+  unfold applyEvents
+  induction evs generalizing s with
+  | nil => exact h
+  | cons e rest ih =>
+    simp only [List.foldl_cons]
+    apply ih
+    split
+    · exact h
+    · exact set_keysNodup _ _ _ _ h
+
+/-- **The iterative auth checks keep at most one event per (type, state_key)**, whatever the auth oracle answers. -/
+theorem authAndApply_keysNodup (authMap : List Event) (rejected : List ID) (s : State) (evs : List Event)
+    (h : KeysNodup s) : KeysNodup (authAndApply authMap rejected s evs) := by
+  unfold authAndApply
+  induction evs generalizing s with
+  | nil => exact h
+  | cons e rest ih =>
+    simp only [List.foldl_cons]
+    apply ih
+    split
+    · exact applyEvents_keysNodup _ _ h
+    · exact h
+
+example : KeysNodup ([] : State) := by simp [KeysNodup]
+
 end V.C11
